@@ -142,6 +142,16 @@ CHECKS["C16"] = (
     "DESIGN.md section 3 / C16",
 )
 
+CHECKS["C07"] = (
+    "Hypothesis trees x grammar-generated and node-derived xpaths; findall vs match (differential) and both vs a set-based reference semantics",
+    "Seeded Hypothesis search over trees (tuples wider than 10, subclass hierarchies, a field named 'child') and "
+    "four xpaths per tree - raw from the grammar and derived from a real node's chain, then generalised and "
+    "perturbed; findall (no duplicates), match on every node, find and the node front-ends are compared with "
+    "each other and with an independent reference semantics over the node's root chain. Bounded exploration.",
+    "Trusts Hypothesis and pbt/xpath_ref.py; the grammar in the source is taken as the documented one.",
+    "DESIGN.md section 3 / C07",
+)
+
 NOT_YET = "check not built yet in this snapshot (see DESIGN.md section 9 build order); nothing is claimed"
 
 
